@@ -141,7 +141,11 @@ Placements(c) ==
          IF Quick THEN << TplCanonP, TplP(2, TRUE, 5, 204), TplP(3, FALSE, 3, 255) >>
          ELSE SetToSeq({ TplP(ord, rev, g[1], g[2]) : ord \in 1..3, rev \in BOOLEAN,
                          g \in { <<0, 0>>, <<5, 204>>, <<32, 170>> } })
-Lists(c) == IF c = "tpl" THEN ListsTpl ELSE Lists3DS(c)
+\* constants (evaluated once by TLC), one per container because the names depend on the encoding
+ListsCtpk == Lists3DS("ctpk")
+ListsBch  == Lists3DS("bch")
+ListsCgfx == Lists3DS("cgfx")
+Lists(c) == CASE c = "ctpk" -> ListsCtpk [] c = "bch" -> ListsBch [] c = "cgfx" -> ListsCgfx [] c = "tpl" -> ListsTpl
 
 Cases == UNION { { <<c, vi, pi>> : vi \in 1..Len(Lists(c)), pi \in 1..Len(Placements(c)) } : c \in Containers }
 CaseSeq == SetToSeq(Cases)
